@@ -12,10 +12,10 @@ import (
 
 func init() {
 	register(&propCheck{
-		id:    "C14",
-		level: "other",
+		id:          "C14",
+		level:       "other",
 		explanation: "Static necessary conditions of 'retries are bounded and waits stay in range': (O1) every retry.Do of the repository passes Attempts(…) and Context(c) with c derived from a context parameter; the generic RetryIf also passes the caller's condition, LastErrorOnly(true), takes the attempt bound from RetryMax, calls the operation exactly once when the policy is disabled, and reports its result through ConvertContextError; (O2) a number parsed from a response header that is multiplied into a time.Duration is clamped below (≥ 0) and above (product representable) on every path, decided by an interval analysis over the branch conditions; (O3) the three IRetryWaitPolicy.Apply siblings share the Retry-After prologue — consulted only when enabled, its hint returned exactly when found; (O4) their fall-backs: the constant policy returns min, the linear policy delegates (min, max, attempt, resp) unchanged, the exponential policy returns max unless the computed wait passed both the representability and the '> max' test; (O5) policy selection and the wiring of bounds into the retrying HTTP client. Decided on SSA; nothing is executed. Not decided: the arithmetic inside retry-go and go-retryablehttp (jitter, (n+1)·min bounds, 2^n growth for n up to 2^31).",
-		run:   runC14,
+		run:         runC14,
 		assumptions: []string{
 			"retry-go honours Attempts, Context, RetryIf and LastErrorOnly as documented; go-retryablehttp's LinearJitterBackoff/DefaultBackoff stay within [min, max]-derived bounds",
 			"Attempts(0) means 'retry until success' in retry-go: RetryMax = 0 with an enabled policy is outside the property's quantifier (attempts 1..8)",
@@ -171,7 +171,7 @@ func (c *Ctx) c14RetryDo() {
 // O2 interval analysis
 
 type ival struct {
-	lo, hi     *big.Int
+	lo, hi       *big.Int
 	hasLo, hasHi bool
 }
 
